@@ -57,8 +57,31 @@ def flag_obligations():
         def post(ex, ctx, out, info, want=want, fn=fn):
             yield f"sets-evaluation-flag-to-{want}(for-every-previous-state)", ctx.heap["evaluate"] == z3.BoolVal(want)
 
-        verify_function(ex, fn, setup, post)
+        verify_function(ex, fn, setup, post, concretize=flag_concretizer)
     return ex, discharge(ex, UNIT)
+
+
+FLAG_REPLAY = """import itertools
+from sympy.core.parameters import global_parameters
+from symplyphysics.core import processors as P
+calls = {"disable": (P.disable_sympy_evaluation, False), "enable": (P.enable_sympy_evaluation, True), "reset": (P.reset_sympy_evaluation, True)}
+try:
+    for n in range(1, 5):
+        for seq in itertools.product(calls, repeat=n):
+            global_parameters.evaluate = True
+            for name in seq:
+                fn, want = calls[name]
+                fn()
+                assert global_parameters.evaluate is want, ("after the call sequence", seq, "up to", name, "the evaluation flag is", global_parameters.evaluate, "expected", want)
+finally:
+    global_parameters.evaluate = True
+print("every call sequence of length <= 4 leaves the flag as the contract says")
+"""
+
+
+def flag_concretizer(model, name):
+    from ..core import try_replay
+    return try_replay(FLAG_REPLAY)
 
 
 # ------------------------------------------------------------------------------------------ (B) patcher
@@ -167,6 +190,65 @@ def patcher_bounded(maxlen):
             if why:
                 failures.append((kinds, why))
     return count, skipped, failures
+
+
+# ------------------------------------------------------------------------------------------ (B2) member / docstring association
+PKINDS = ["pub", "priv", "tuple", "doc", "docfn", "plainfn", "other"]
+
+
+def parse_stmt(kind, i):
+    src = {"pub": f"v{i} = {i}\n", "priv": f"_p{i} = {i}\n", "tuple": f"a{i}, b{i} = {i}, {i}\n", "doc": f"'doc {i}'\n",
+           "docfn": f"def f{i}(x):\n    'fdoc {i}'\n    return x\n", "plainfn": f"def g{i}(x):\n    return x\n", "other": f"print\n"}[kind]
+    return ast.parse(src).body[0]
+
+
+def reference_members(kinds):
+    """which documented members / functions a module body has, from the contract of find_members_and_functions (parse.py docstring and
+    the documentation format): a string literal documents the assignment statement right before it in the sense of the LAST assignment
+    seen (its first plain-name target; none for a tuple target -- then the literal documents nothing); a later literal for the same
+    member replaces the earlier one; functions are listed iff they have a docstring.  Returns ([(name, doc)], [function names])"""
+    current, docs, order, funcs = None, {}, [], []
+    for i, k in enumerate(kinds):
+        if k in ("pub", "priv"):
+            current = f"v{i}" if k == "pub" else f"_p{i}"
+            order.append(current)
+        elif k == "tuple":
+            current = None
+        elif k == "doc" and current is not None:
+            docs[current] = f"doc {i}"
+        elif k == "docfn":
+            funcs.append(f"f{i}")
+    return [(n, docs[n]) for n in order if n in docs and not n.startswith("_")], funcs
+
+
+def members_bounded(maxlen):
+    from symplyphysics.docs.parse import find_members_and_functions
+    failures, count = [], 0
+    for n in range(0, maxlen + 1):
+        for kinds in itertools.product(PKINDS, repeat=n):
+            count += 1
+            module = ast.Module(body=[ast.parse("'module doc'\n").body[0]] + [parse_stmt(k, i) for i, k in enumerate(kinds)], type_ignores=[])
+            ast.fix_missing_locations(module)
+            try:
+                members, functions = find_members_and_functions(module)
+                # private members are never rendered: whether they are listed is not constrained
+                got = ([(m.name, m.docstring) for m in members if not m.name.startswith("_")], [f.name for f in functions])
+            except Exception as e:
+                got = f"raised {type(e).__name__}: {e}"
+            want = reference_members(kinds)
+            if got != want:
+                failures.append((kinds, f"got {got}, expected {want}"))
+    return count, failures
+
+
+def replay_members(kinds):
+    from symplyphysics.docs.parse import find_members_and_functions
+    module = ast.Module(body=[ast.parse("'module doc'\n").body[0]] + [parse_stmt(k, i) for i, k in enumerate(kinds)], type_ignores=[])
+    ast.fix_missing_locations(module)
+    members, functions = find_members_and_functions(module)
+    got = ([(m.name, m.docstring) for m in members if not m.name.startswith("_")], [f.name for f in functions])
+    assert got == reference_members(kinds), (kinds, "find_members_and_functions gives", got, "the contract says", reference_members(kinds))
+    print("members and docstrings as the contract says")
 
 
 def callsite_preconditions():
@@ -395,6 +477,14 @@ def run(report):
     report.add_bounded("patch_sympy_evaluate on every statement-kind sequence (8 kinds) after the module docstring, real function, reference flag semantics",
                        f"length <= {maxlen} ({count} sequences satisfying the precondition, {skipped} skipped for violating it)", count, not failures, fl)
     report.function("symplyphysics.docs.patch.patch_sympy_evaluate", PKG / "docs/patch.py", note="bounded-exhaustive, not proved")
+    # (B2)
+    mlen = 5 if report.tier == "thorough" else 4
+    mcount, mfail = members_bounded(mlen)
+    mfl = [{"name": f"{UNIT}/find_members_and_functions/kinds:{'-'.join(k)}", "detail": why, "signature": "-".join(k),
+            "replay": {"reproduced": True, "script": f"from vf.props import c19\nc19.replay_members({tuple(k)!r})\n"}} for k, why in mfail[:50]]
+    report.add_bounded("find_members_and_functions on every statement-kind sequence (public / private / tuple-target assignment, string literal, documented / plain function, other): "
+                       "each string literal documents the last assignment's name, nothing else", f"length <= {mlen} ({mcount} module bodies)", mcount, not mfail, mfl)
+    report.function("symplyphysics.docs.parse.find_members_and_functions", PKG / "docs/parse.py", note="bounded-exhaustive, not proved")
     o2, nmods = callsite_preconditions()
     report.extend(o2)
     # (C)
